@@ -156,6 +156,12 @@ CANARIES = [
     ('data-kv-swapped', 'C07', 'src/data.rs', '            Leaf::Kv(key, value) => Data::KeyValue(KVPair::new(key, value)),', '            Leaf::Kv(key, value) => Data::KeyValue(KVPair::new(value, key)),'),
     ('kvpair-value-is-key', 'C07', 'src/data.rs', '    pub fn value(&self) -> &[u8] {\n        self.value.as_ref()', '    pub fn value(&self) -> &[u8] {\n        self.key.as_ref()'),
     ('option-kv-from-bucket', 'C07', 'src/data.rs', '            Leaf::Bucket(_, _) => None,\n            Leaf::Kv(key, value) => Some(KVPair::new(key, value)),', '            Leaf::Bucket(n, _) => Some(KVPair::new(n.clone(), n)),\n            Leaf::Kv(key, value) => Some(KVPair::new(key, value)),'),
+    ('writenode-pos-ignores-earlier-payloads', 'C05', 'src/page.rs', '                    elem.value_size = value.len() as u64;\n                    elem.pos = header_offsets + data_size;', '                    elem.value_size = value.len() as u64;\n                    elem.pos = header_offsets;'),
+    ('writenode-value-size-is-key-size', 'C15', 'src/page.rs', '                    elem.value_size = value.len() as u64;', '                    elem.value_size = key.len() as u64;'),
+    ('writenode-branch-offsets-not-stepped', 'C05', 'src/page.rs', '                    data_size += elem.key_size;\n                    header_offsets -= header_size;', '                    data_size += elem.key_size;'),
+    ('writenode-count-one-more', 'C05', 'src/page.rs', '        self.count = n.data.len() as u64;', '        self.count = n.data.len() as u64 + 1;'),
+    ('writenode-leaf-announced-as-branch', 'C15', 'src/page.rs', '                self.page_type = Page::TYPE_LEAF;\n                header_size = size_of::<LeafElement>() as u64;', '                self.page_type = Page::TYPE_BRANCH;\n                header_size = size_of::<LeafElement>() as u64;'),
+    ('writenode-payload-after-a-gap', 'C05', 'src/page.rs', '        let mut buf = &mut buf[(total_header as usize)..];', '        let mut buf = &mut buf[(total_header as usize + 8)..];'),
 ]
 
 
